@@ -1361,7 +1361,7 @@ class Interp:
         if dotted == "enumerate" and len(args) == 1 and isinstance(args[0], (PList, tuple)) and not kwargs:
             items = args[0].items if isinstance(args[0], PList) else list(args[0])
             return PList([(Rat.const(i), x) for i, x in enumerate(items)])
-        if dotted == "zip" and len(args) >= 2 and all(isinstance(a, (PList, tuple)) for a in args) and not kwargs:
+        if dotted == "zip" and len(args) >= 2 and all(isinstance(a, (PList, tuple)) for a in args) and not (set(kwargs) - {"strict"}):
             cols = [a.items if isinstance(a, PList) else list(a) for a in args]
             return PList([tuple(t) for t in zip(*cols)])
         if dotted == "str":
@@ -1591,6 +1591,26 @@ def _dotted(n):
 
 
 BASE_PARTITION = (((0, 0), (0, 0)), ((0, 1), (1, -2)), ((1, -1), (1, -1)))
+
+
+_NEG_OP = {"<": ">=", "<=": ">", ">": "<=", ">=": "<", "==": "!=", "!=": "=="}
+
+
+def constraints_of(it, dec):
+    """the sign conditions a leaf's decisions state: [(Rat diff, op)] meaning `diff op 0` (for rat.feasible)"""
+    return [(it.pred_exprs[k][0], it.pred_exprs[k][1] if v else _NEG_OP[it.pred_exprs[k][1]]) for k, v in dec.items() if k in it.pred_exprs]
+
+
+def leaf_implies(it, dec, diff, op, extra=()):
+    """do the leaf's conditions (plus `extra` constraints) imply `diff op 0`?  Decided in the linear relaxation: True is certain"""
+    from .rat import feasible
+    cons = constraints_of(it, dec) + list(extra)
+    neg = _NEG_OP[op]
+    if neg == "!=":
+        return not feasible(cons + [(diff, "<")]) and not feasible(cons + [(diff, ">")])
+    if neg == "==":
+        return False
+    return not feasible(cons + [(diff, neg)])
 
 
 def explore(run, month_classes=True, preset=None, max_envs=MAX_ENVS, partition=BASE_PARTITION):
